@@ -170,7 +170,9 @@ def config(m):
         isothermal=bool(m.temperatureParameters._isIsothermal), kB=float(BOLTZMANN_CONSTANT), a0=float(m.matrixParameters.volume.a),
         theta=float(m.matrixParameters.theta), minDens=float(c.minNucleateDensity), minComp=float(c.minComposition),
         minRadius=float(c.minRadius), maxDissolution=float(c.maxDissolution), maxTempChange=float(c.maxTempChange),
-        x0=_cp(m.pData.composition[0]), phases=phases)
+        x0=_cp(m.pData.composition[0]), phases=phases,
+        effEnabled=bool(m.matrixParameters.effectiveDiffusion.isEnabled), effOhm=_cp(m.matrixParameters.effectiveDiffusion.ohmInterp),
+        effVal=_cp(m.matrixParameters.effectiveDiffusion.effDiffInterp))
 
 
 def attach(model, capture_setup=False):
@@ -410,6 +412,7 @@ def enc_cfg(c):
     s += [str(c['nElem']), enc_bool(c['binary']), str(c['betaType']), enc_bool(c['isothermal'])]
     s += [f2b(c[k]) for k in ('kB', 'a0', 'theta', 'minDens', 'minComp', 'minRadius', 'maxDissolution', 'maxTempChange')]
     s += [enc_list(c['x0'])]
+    s += [enc_bool(c['effEnabled']), enc_list(c['effOhm']), enc_list(c['effVal'])]
     s += [str(len(c['phases']))]
     for p in c['phases']:
         s += [str(p['id']), p['site'], enc_bool(p['isGB'])] + [f2b(p[k]) for k in ('gamma', 'gbE', 'vmBeta', 'areaFactor', 'volumeFactor', 'gbRemoval', 'gbk', 'rmin')]
@@ -892,6 +895,11 @@ def _one(ctx, res, prop, name, cap, observer, oracles=(), driver=True):
         else:
             kwnruns.run(m, simt, solver=solver, max_steps=cap, observer=observer)
         cfg = config(m)
+        # hypothesis `EffTableOK` of effOf_pos / growthBinaryPh_sign, on the implementation's own tables
+        ohm, ev = np.asarray(cfg['effOhm'], dtype=float), np.asarray(cfg['effVal'], dtype=float)
+        if not (len(ohm) == len(ev) >= 2 and np.all(ev[:-1] > 0) and ev[-1] >= 0 and np.all(ev <= 1) and ohm[-1] == 1 and np.all(np.diff(ohm) > 0)):
+            res.violate('composed:effective-diffusion-table-shape', 'the interpolation tables of EffectiveDiffusionFunctions are not increasing abscissae ending at 1 with ordinates in (0, 1] except a last 0',
+                        dict(scenario=name, seed=ctx.seed), dict(n=len(ohm), first=[float(ohm[0]), float(ev[0])], last=[float(ohm[-1]), float(ev[-1])]), 'EffTableOK')
         if oracles:
             step_oracles(res, rec, cfg, name, oracles)
         if not driver:
